@@ -6,6 +6,7 @@
    implementation against std::vec::Vec in lock-step only. *)
 From Coq Require Import List Arith ZArith.
 From BS Require Import Word VecCap VecCapProofs LibRefine CapRefine Colls CollsProofs SplitCap SplitRefine.
+From BS.gen Require FixFacts.
 From BS.gen Require SplitSites SplitFacts.
 From BS.gen Require LibArith CapSites.
 Import ListNotations.
@@ -265,6 +266,11 @@ Theorem C08_source_split_off_windows_tail_long :
   SplitSites.so_taillong_rhs_cap (Z.of_nat a) (Z.of_nat b) (Z.of_nat len) (Z.of_nat cap) = Ok (Z.of_nat (wcap off)).
 Proof. exact split_off_taillong_refines. Qed.
 
+(* the repair of a genuine defect recorded in known_findings.json is still in place in the CURRENT source (tools/fixsites.py ->
+   gen/FixFacts.v, read out on every run): a `fixed:` entry suppresses nothing, and its syntactic return breaks this obligation *)
+Theorem C08_repair_in_place_defect8 : FixFacts.defect8_regrowth_copies_with_memmove = true.
+Proof. vm_compute. reflexivity. Qed.
+
 Print Assumptions C08_truncate_spec.
 Print Assumptions C08_remove_spec.
 Print Assumptions C08_remove_panics_iff.
@@ -300,3 +306,4 @@ Print Assumptions C08_reserve_of_the_source_is_the_models.
 Print Assumptions C08_mut_reserve_of_the_source_is_the_models.
 Print Assumptions C08_source_split_off_windows_head_short.
 Print Assumptions C08_source_split_off_windows_tail_long.
+Print Assumptions C08_repair_in_place_defect8.
